@@ -664,13 +664,31 @@ func verifC28Run(p verifC28Params, gateUsecase bool) *verifC28History {
 			h.StopErr = err.Error()
 		}
 		h.Drains = append(h.Drains, d)
-		// Stop only waits its release budget; wait for the drain it started
+		// Stop only waits its release budget; wait for the drain it started.
+		// "No call in flight" alone is not a quiescent point (the next shard may
+		// not have reached the usecase yet): every accepted SEND must have been
+		// handed to the usecase and every call must have returned.
+		pending := func() bool {
+			if uc.inflight.Load() != 0 {
+				return true
+			}
+			var seen int64
+			uc.mu.Lock()
+			for _, c := range uc.calls {
+				seen += int64(len(c.Items))
+			}
+			uc.mu.Unlock()
+			return seen < obs.ok.Load() || uc.inflight.Load() != 0
+		}
 		deadline := time.Now().Add(verifC28WaitTimeout())
-		for uc.inflight.Load() != 0 && time.Now().Before(deadline) {
+		for pending() && time.Now().Before(deadline) {
 			time.Sleep(time.Millisecond)
 		}
-		if uc.inflight.Load() != 0 {
-			h.Hung = "busy"
+		if pending() {
+			h.Hung = classifyHang()
+			if h.Hung == "quiescent" {
+				h.FinalErr = "Server.Stop returned, accepted SENDs were never handed to the usecase"
+			}
 		}
 	} else {
 		uc.openGate()
